@@ -8,6 +8,8 @@ CHECKS["C15"] = dict(
         "the reference assumes the documented order of draws per chain (j, k, update draws) followed by one acceptance draw per in-domain proposal whose probability does not exceed the current one",
         "an answer that is established as crashing for one configuration (role of the draw + symbol, e.g. k-draw = 1.0) is not re-executed for that configuration; such cases are counted in 'skipped'",
         "answer strings longer than the enumerated length continue with the default answer 0.5",
+        "state edits between two runs use every user-level public mutator of TasmanianDREAM (setState vector/callable, clearPDFvalues, clearHistory, setPDFvalues callable/vector, expandHistory); saveStateHistory/getIJKdelta are documented as sampler-internal and not called; setPDFvalues(vector) is given the true pdf values of the current state",
+        "reference for the edits: setState replaces the chains, keeps the history and leaves the pdf values not ready (the next SampleDREAM must evaluate the probability function on the current state first); clearPDFvalues keeps the state, values not ready; clearHistory drops records and the acceptance counter only",
         "pdf 'posterior' is the library's own posterior(model, LikelihoodGaussIsotropic, uniform_prior) composition used as the environment's probability function (its numerics are not judged, only that recorded values equal it)",
         "a violation stops the checking of its case (later symptoms of the same execution would be consequences)",
     ],
